@@ -19,7 +19,7 @@ def gen_program(rng):
     if r < 0.25:
         return "형" + "." * 65 + " 항. 혀어어어어어어엉" + "." * 6912 + " 항. 형.. 항."
     if r < 0.35:
-        return G.render(G.gen_program(rng, rng.choice([2, 4, 6]))) + " 흑. 항"
+        return G.render([c for c in G.gen_program(rng, rng.choice([2, 4, 6])) if not (c[0] == 5 and c[2] == 0)] or [(0, 1, 1, [[None]])]) + " 흑. 항"
     cmds = [c for c in G.gen_program(rng, rng.choice([1, 2, 3, 5, 8, 10])) if not (c[0] == 5 and c[2] == 0)]
     return G.render(cmds or [(0, 1, 1, [[None]])])
 
@@ -148,6 +148,9 @@ def run(prop, tier, seed):
         if len(scripts[k]) >= 3:
             distinct.add((progs[k], tuple(scripts[k])))
         path = os.path.join(d, "d%d.hyeong" % k)
+        if cls == "timeout":
+            hist["skipped-nonterminating"] += 1
+            continue
         crashed = cls not in ("exit0", "exit1") or "panicked" in gerr
         if crashed:
             fails.append((k, "crash", got, "", cls, gerr))
